@@ -203,6 +203,34 @@ def check_member(fam, args, mseed):
     return viol, info
 
 
+def coexisting(mem, tier):
+    """"for every instance": the value clause again with ALL members of the run alive at the same time (a benchmark list built
+    up-front): every object is constructed first, then each is evaluated at its own declared optimum.  State shared between
+    instances (class-level generators or coefficient tables) shows here and nowhere in a one-at-a-time sweep."""
+    viol, alive = [], []
+    for fam, args in mem:
+        obj, err = oc.guarded(oc.construct, fam, args)
+        alive.append((fam, args, obj, err))
+    n = 0
+    for i, (fam, args, obj, err) in enumerate(alive):
+        if err is not None or obj is None:
+            continue                      # construction failures are reported by the per-member pass
+        res, err2 = oc.guarded(lambda: (oc.declared(obj), oc.real_eval(obj, oc.declared(obj)[0])))
+        n += 1
+        if err2 is not None:
+            viol.append({"property": "C10", "family": fam, "args": list(args), "tier": tier, "clause": "value_when_coexisting",
+                         "batch": [[f, list(a)] for f, a, _, _ in alive], "index": i, "observed": {"exception": err2}})
+            continue
+        (xd, fstar), val = res
+        if not abs(val - fstar) <= VAL_TOL:
+            viol.append({"property": "C10", "family": fam, "args": list(args), "tier": tier, "clause": "value_when_coexisting",
+                         "batch": [[f, list(a)] for f, a, _, _ in alive], "index": i, "declared_point": oc.jl(xd),
+                         "declared_value": fstar,
+                         "observed": {"value_at_declared_point": val, "difference": val - fstar, "tolerance": VAL_TOL,
+                                      "note": "all members of the batch were constructed before any was evaluated"}})
+    return viol, n
+
+
 def members_for(tier, r):
     full = tier == "thorough"
     mem = []
@@ -225,6 +253,9 @@ def run(tier, r):
     stats = {"per_family": {}, "dimensions": {}, "fast_path_rejected": 0, "real_evaluations": 0,
              "max_declared_minus_best": {}}
     nontrivial = 0
+    cv, cn = coexisting(mem, tier)
+    violations += cv[:40]
+    stats["coexisting_instances_checked"] = cn
     for fam, args in mem:
         mseed = r.getrandbits(48)
         res, err = oc.guarded(check_member, fam, args, mseed)
@@ -253,12 +284,17 @@ def run(tier, r):
     return {"explored": len(mem), "distinct_nontrivial": nontrivial,
             "rule": "members = (family, constructor arguments), all distinct; quick: seeded sample of Hill/Shekel (40 "
                     "each), Grishagin (10), GKLS (4 per dimension), all Shekel4, Rastrigin/XSquared in 5-6 dimensions, "
-                    "StronginC3; thorough: every finite member and Rastrigin/XSquared n=1..30,50. Non-trivial: the "
+                    "StronginC3; thorough: every finite member and Rastrigin/XSquared n=1..30,50; before the per-member pass ALL members "
+                    "of the run are constructed up-front and each is evaluated at its declared optimum while the others are alive. Non-trivial: the "
                     "search made >= 1000 real evaluations and the objective varies by more than 1e-6 over the scan.",
             "violations": violations, "known": [], "stats": stats, "samples": samples}
 
 
 def replay(case):
+    if case.get("clause") == "value_when_coexisting":
+        viol, _ = coexisting([(f, tuple(a)) for f, a in case["batch"]], case.get("tier", "quick"))
+        hit = [c for c in viol if c["index"] == case["index"]]
+        return {"reproduced": bool(hit), "detail": hit[0]["observed"] if hit else "value clause holds on replay"}
     res, err = oc.guarded(check_member, case["family"], tuple(case["args"]), case["mseed"])
     if err is not None:
         return {"reproduced": case["clause"] == "exception", "detail": err}
